@@ -2,7 +2,7 @@
 import numpy as np
 
 from . import _rfa as R
-from .. import tol
+from .. import gen, tol
 from ..core import fp_watch
 from ..models import integrate as I
 
@@ -48,7 +48,8 @@ def pipeline(ctx, cid, x, y, strat, n, kw, append, rule, info):
             wv = Weaver(x, y)
             if append is not None:
                 wv.append_one_sample(make_periodic=append)
-            n_arg = np.int64(n) if (len(x) + n) % 4 == 0 else n      # a factor taken from a NumPy computation
+            # a factor taken from a NumPy computation / read from an unsigned column
+            n_arg = gen.COUNT_TYPES[(len(x) + n) % len(gen.COUNT_TYPES)](n) if (len(x) + n) % 3 == 0 and n < 256 else n
             if strat == "ExpAdaptiveRFA" and not kw:
                 wv.recreate_from_average(n_arg)                # documented default strategy
             else:
